@@ -340,7 +340,7 @@ pub fn run(tier: Tier) -> i32 {
                 rep.sample_last(json!({"engine": ec.name, "last_action_of_alphabet": acts.last().map(|a| a.to_json())}));
             }
         }
-        if counts[0] != counts[1] {
+        if rep.violation_count() == 0 && counts[0] != counts[1] {
             crate::elog!("MACHINERY: state counts differ between thread counts: {:?}", counts);
             return 2;
         }
